@@ -38,5 +38,9 @@ def convert(raw, sid):
     sched += [{"s": "env", "op": "delete", "res": "parents", "name": "p"}, {"s": "deliver"}]
     for _ in range(3):
         sched += rnd
+    import json as _json
+    # the rolling monitors need to know which ControllerRevision stands for which value of the revisioned field
+    rolling = {"patchOf": {"s:%d" % v: _json.dumps({"spec": {"rev": str(v)}}, separators=(",", ":"), sort_keys=True) for v in (1, 2, 3)},
+               "revOrder": {"s:%d" % v: v for v in (1, 2, 3)}, "parentUid": "p1"}
     return {"id": sid, "fam": "rollfin", "cfg": cfg, "objs": [parent], "hook": hook, "sched": sched,
-            "expect": {"model": {"mayRemove": raw["mayRemove"]}}}
+            "expect": dict(rolling, model={"mayRemove": raw["mayRemove"]})}
